@@ -14,7 +14,14 @@ import (
 	"testing"
 
 	"github.com/veraison/psatoken"
+	"github.com/veraison/psatoken/encoding"
+
+	"verifharness/icose"
 )
+
+func icoseSigned(kp keyPair, payload []byte) ([]byte, error) {
+	return icose.SignedToken(kp.Alg, kp.Priv, payload)
+}
 
 // ---------------------------------------------------------------------------
 // Environment
@@ -366,4 +373,65 @@ func interfere() {
 		_, _ = psatoken.EncodeClaimsToJSON(c)
 		_, _ = psatoken.ValidateAndEncodeClaimsToJSON(c)
 	}
+}
+
+// otherTraffic: interfere() plus decodes (successful and failing) of unrelated
+// CBOR / JSON / COSE documents and uses of the embedding-aware helpers - what a
+// busy verifier does between two calls that belong together.
+var otherTrafficDocs struct {
+	once             sync.Once
+	cbor, json, cose [][]byte
+	flat             *ShapeFlat
+}
+
+var trafficTick int
+
+// otherTrafficEvery runs otherTraffic on every n-th call (cheap checks call it
+// on a sample of their cases).
+func otherTrafficEvery(n int) {
+	trafficTick++
+	if trafficTick%n == 0 {
+		otherTraffic()
+	}
+}
+
+func otherTraffic() {
+	interfere()
+	d := &otherTrafficDocs
+	d.once.Do(func() {
+		for _, p := range []Prof{P1, P2} {
+			m := baseValid(p, 1)
+			d.cbor = append(d.cbor, m.WireBytes())
+			if c, ok := m.BuildLiteral(); ok {
+				if js, err := psatoken.EncodeClaimsToJSON(c); err == nil {
+					d.json = append(d.json, js)
+				}
+			}
+			kp := keyFor(-8, 2) // EdDSA
+			if tok, err := icoseSigned(kp, m.WireBytes()); err == nil {
+				d.cose = append(d.cose, tok)
+			}
+		}
+		d.cbor = append(d.cbor, []byte{0xa1, 0x19, 0x01, 0x09, 0x05}, []byte{0xbf}, []byte{0xa2, 0x01, 0x00, 0x01, 0x00})
+		d.json = append(d.json, []byte(`{"eat-profile":"http://example.com/nope"}`), []byte(`{"psa-profile":"PSA_IOT_PROFILE_1","eat-profile":"http://arm.com/psa/2.0.0"}`), []byte(`null`), []byte(`{"a":1,"a":2}`))
+		d.cose = append(d.cose, []byte{0xd2, 0x84, 0x40}, []byte{0xd1, 0x84, 0x40, 0xa0, 0x40, 0x40})
+		i7, s := int64(7), "s"
+		bs := []byte{1, 2}
+		d.flat = &ShapeFlat{A: &i7, B: &s, C: &bs, D: 3, E: "e"}
+	})
+	for _, b := range d.cbor {
+		_, _ = psatoken.DecodeClaimsFromCBOR(b)
+		_ = encoding.PopulateStructFromCBOR(hdm, b, &ShapeFlat{})
+	}
+	for _, b := range d.json {
+		_, _ = psatoken.DecodeClaimsFromJSON(b)
+		_ = encoding.PopulateStructFromJSON(b, &ShapeFlat{})
+	}
+	for _, b := range d.cose {
+		if ev, err := psatoken.DecodeEvidenceFromCOSE(b); err == nil {
+			_ = ev.Verify(keyFor(-8, 2).Pub)
+		}
+	}
+	_, _ = encoding.SerializeStructToCBOR(hem, d.flat)
+	_, _ = encoding.SerializeStructToJSON(d.flat)
 }
